@@ -67,12 +67,19 @@ def build_item(item, tmpdir, full=False):
             g = Grammar.from_string(item["text"], recognizers=recs or None)
     except Exception as e:
         return {"grammar": type(e).__name__}
-    def make_table(t):
+    def make_table(t, grammar=None):
+        grammar = grammar or g
         kw = {}
         if t.get("ld") is not None:
             kw["lexical_disambiguation"] = t["ld"]
+        if t.get("start"):
+            # another entry point of the same grammar (create_table's documented
+            # start_production parameter)
+            pid = grammar.get_production_id(t["start"])
+            if pid is not None:
+                kw["start_production"] = pid
         return create_table(
-            g,
+            grammar,
             itemset_type=LR_0 if t["tables"] == "SLR" else LR_1,
             prefer_shifts=t["ps"],
             prefer_shifts_over_empty=t["pse"],
@@ -126,6 +133,15 @@ def build_item(item, tmpdir, full=False):
             again = type(e).__name__
         out[key]["same_after_later_builds"] = after == out[key]["table"]
         out[key]["same_when_built_again"] = again == out[key]["table"]
+        if item.get("text") is not None:
+            # ... and the same table as on a Grammar object that has built nothing yet
+            try:
+                recs = {k: pool.RECOGNIZERS[v] for k, v in (item.get("recs") or {}).items()}
+                g2 = Grammar.from_string(item["text"], recognizers=recs or None)
+                fresh = sha(json.dumps(table_to_serializable(make_table(t, g2)), sort_keys=True))
+            except Exception as e:
+                fresh = type(e).__name__
+            out[key]["same_as_on_fresh_grammar"] = fresh == out[key]["table"]
     if item.get("files") and item.get("pge") is not None:
         # the caches a process writes next to the grammar (.pgc table, .pgec compiled
         # error hints) must be byte-identical in every process, and what a parser
